@@ -367,6 +367,36 @@ static void *enq_cpu_thread(void *a)
 	return NULL;
 }
 
+/* variant hold=1: a reader keeps the teardown's grace period open until the enqueuer has *entered* call_rcu(); the enqueuer therefore
+ * starts its call while free_all_cpu_call_rcu_data() is already waiting - the helpers must be unpublished by then */
+#define N_FREE_STARTED	360
+#define N_ENQ_STARTED	361
+static int free_started_pred(void *a) { (void)a; return (int)vrt_note_get(N_FREE_STARTED); }
+static int enq_started_pred(void *a) { (void)a; return (int)vrt_note_get(N_ENQ_STARTED); }
+
+static void *hold_reader(void *a)
+{
+	(void)a;
+	rcu_register_thread();
+	RD_LOCK();
+	uatomic_inc(&nready);
+	BLOCKING(vrt_await(enq_started_pred, NULL));
+	RD_UNLOCK();
+	rcu_unregister_thread();
+	return NULL;
+}
+
+static void *enq_cpu_late_thread(void *a)
+{
+	rcu_register_thread();
+	vrt_set_cpu((int)vrt_param("cpu", 1));
+	BLOCKING(vrt_await(free_started_pred, NULL));
+	vrt_note_set(N_ENQ_STARTED, 1);
+	do_call_rcu((int)(long)a, cb);
+	rcu_unregister_thread();
+	return NULL;
+}
+
 static void run_per_cpu_free_race(void)
 {
 	pthread_t e;
@@ -375,6 +405,21 @@ static void run_per_cpu_free_race(void)
 	main_enter();
 	ret = create_all_cpu_call_rcu_data(0);
 	VRT_CHECK(ret == 0, "create_all_cpu_call_rcu_data failed: %d", ret);
+	if (vrt_param("hold", 0)) {
+		pthread_t r;
+
+		pthread_create(&r, NULL, hold_reader, NULL);
+		BLOCKING(vrt_await(ready_pred, (void *)1L));
+		pthread_create(&e, NULL, enq_cpu_late_thread, (void *)0L);
+		vrt_note_set(N_FREE_STARTED, 1);
+		BLOCKING(free_all_cpu_call_rcu_data());
+		BLOCKING(pthread_join(e, NULL));
+		BLOCKING(pthread_join(r, NULL));
+		wait_cbs(1);
+		check_cbs("per_cpu_free_race/hold", 1);
+		main_leave();
+		return;
+	}
 	pthread_create(&e, NULL, enq_cpu_thread, (void *)0L);
 	if (vrt_param("yield_first", 1))
 		BLOCKING(vrt_yield());	/* the enqueuer runs first; one preemption then suspends it anywhere inside call_rcu() */
